@@ -430,9 +430,12 @@ func c20Dispatch(idx int, seed uint64) {
 			pl := spec.MakePayload(uid, uint32(st), 20+r.Intn(300))
 			pk := &rc.Packet{Type: rc.PUBLISH, Topic: []byte(topic), QoS: q, Payload: pl}
 			if q > 0 {
-				pk.ID = pid.next()
+				// the server numbers from a small pool: an identifier is used again as soon as its previous
+				// exchange is complete (every exchange is completed within its step)
+				pk.ID = uint16(1 + r.Intn(3))
+				_ = pid
 			}
-			ops = append(ops, fmt.Sprintf("inbound PUBLISH %q q%d uid%d", topic, q, uid))
+			ops = append(ops, fmt.Sprintf("inbound PUBLISH %q q%d id%d uid%d", topic, q, pk.ID, uid))
 			s.srv.SendPacket(pk)
 			if q == 2 {
 				// duplicates and repeated releases
